@@ -512,6 +512,10 @@ val reduce_normalized_nonlinear_scales_to_difficulty :
 val extract_normalized_nonlinear_scales_from_difficulty :
   ops -> car -> car -> car -> car list -> car list
 
+val wave_mode :
+  ops -> car -> car -> car -> car -> car -> car -> car -> bool -> car -> car
+  -> car * car
+
 val aff : z -> z -> z -> z
 
 val affx : z -> z -> z -> z
@@ -549,6 +553,8 @@ val crs : q list -> car list
 val ciQ : car
 
 val run_sym : q list -> q list
+
+val run_wave : q list -> q list
 
 val qcs : q list -> car list
 
